@@ -182,9 +182,14 @@ let rec run_case (kind : string) (body : sexp list) : string * string =
        if size_ok false h then show_sobs_list (arun asub0 h) else "UNSPECIFIED")
   | "behavior" ->
       let init = val_of (List.nth body 1) in
-      let h = List.map bop_of (args (List.nth body 2)) in
-      (show_bobs_list (brun (bsubj0 init) h),
-       if size_ok false (sops_of h) then show_bobs_list (abrun (asub0, init) h) else "UNSPECIFIED")
+      let raw = args (List.nth body 2) in
+      (* `peekcb`: every next callback reads the subject back while the delivery is in progress; an item is delivered when the value
+         cell holds it (next / next_by store first, a new subscriber is handed what the cell holds), so it reads that item *)
+      let peekcb = (match raw with Atom "peekcb" :: _ -> true | _ -> false) in
+      let h = List.map bop_of (if peekcb then List.tl raw else raw) in
+      let splice l = if peekcb then List.concat_map (fun o -> match o with BO (Deliver (_, Next v)) -> [o; BPeeked v] | _ -> [o]) l else l in
+      (show_bobs_list (splice (brun (bsubj0 init) h)),
+       if size_ok false (sops_of h) then show_bobs_list (splice (abrun (asub0, init) h)) else "UNSPECIFIED")
   | "group_by" when atom_opt (List.nth body 1) = Some "chunk2" || List.length body > 3 ->
       (* variants outside the pure-key / whole-stream family: a key function with a state of its own (the n-th item's key is
          n / 2: it must be called once per item), and take(N) on the stream of groups (groups announced before the cut keep
